@@ -70,6 +70,7 @@ func (o AuthOp) Sx() string {
 
 type AuthCase struct {
 	InMemory          bool // authorize the *Biscuit returned by Build/Append, without a wire round trip
+	Bulk              bool // content goes in through AddBlock(ParsedBlock) / AddAuthorizer(ParsedAuthorizer)
 	MaxFacts, MaxIter int
 	Ctor              string // for | auth | verifier
 	Tokens            [][]Block
@@ -97,6 +98,9 @@ func (a AuthCase) Sx() string {
 	if a.InMemory {
 		mem = " (inmemory)"
 	}
+	if a.Bulk {
+		mem += " (bulk)"
+	}
 	return fmt.Sprintf("(case (limits %d %d) (ctor %s)%s %s %s (rx))", a.MaxFacts, a.MaxIter, ctor, mem, sxList("tokens", toks), sxList("ops", ops))
 }
 
@@ -110,6 +114,9 @@ func decAuthCase(cs *Sx) (AuthCase, error) {
 	a.Ctor = "for"
 	if _, ok := cs.field("inmemory"); ok {
 		a.InMemory = true
+	}
+	if _, ok := cs.field("bulk"); ok {
+		a.Bulk = true
 	}
 	if c, ok := cs.field("ctor"); ok && len(c) == 1 {
 		a.Ctor = c[0].Atom
@@ -188,6 +195,58 @@ func buildToken(blocks []Block, rng *Rng) (*biscuit.Biscuit, error) {
 
 // buildTokenMem: with inMemory the *Biscuit returned by Build / Append is used as is.
 func buildTokenMem(blocks []Block, rng *Rng, inMemory bool) (*biscuit.Biscuit, error) {
+	return buildTokenStyle(blocks, rng, inMemory, false)
+}
+
+func parsedBlockOf(blk Block) biscuit.ParsedBlock {
+	var pb biscuit.ParsedBlock
+	for _, f := range dedupFacts(blk.Facts) { // AddBlock stops at the first duplicate fact
+		pb.Facts = append(pb.Facts, biscuit.Fact{Predicate: f.ToBiscuit()})
+	}
+	for _, r := range blk.Rules {
+		pb.Rules = append(pb.Rules, r.ToBiscuit())
+	}
+	for _, c := range blk.Checks {
+		pb.Checks = append(pb.Checks, c.ToBiscuit())
+	}
+	return pb
+}
+
+// buildTokenStyle: bulk = every block goes in through AddBlock(ParsedBlock), the route
+// parsed Datalog text takes.
+func buildTokenStyle(blocks []Block, rng *Rng, inMemory, bulk bool) (*biscuit.Biscuit, error) {
+	if bulk {
+		_, priv := rootKeys()
+		rd := &detRand{rng}
+		b := biscuit.NewBuilder(priv, biscuit.WithRNG(rd))
+		if len(blocks) == 0 {
+			blocks = []Block{{}}
+		}
+		if err := b.AddBlock(parsedBlockOf(blocks[0])); err != nil {
+			return nil, err
+		}
+		tok, err := b.Build()
+		if err != nil {
+			return nil, err
+		}
+		for _, blk := range blocks[1:] {
+			bb := tok.CreateBlock()
+			if err := bb.AddBlock(parsedBlockOf(blk)); err != nil {
+				return nil, err
+			}
+			if tok, err = tok.Append(rd, bb.Build()); err != nil {
+				return nil, err
+			}
+		}
+		if inMemory {
+			return tok, nil
+		}
+		ser, err := tok.Serialize()
+		if err != nil {
+			return nil, err
+		}
+		return biscuit.Unmarshal(ser)
+	}
 	_, priv := rootKeys()
 	rd := &detRand{rng}
 	b := biscuit.NewBuilder(priv, biscuit.WithRNG(rd))
@@ -309,7 +368,7 @@ func goAuthSeq(a AuthCase) (res string) {
 	rng := NewRng(77)
 	toks := make([]*biscuit.Biscuit, len(a.Tokens))
 	for i, t := range a.Tokens {
-		tok, err := buildTokenMem(t, rng, a.InMemory)
+		tok, err := buildTokenStyle(t, rng, a.InMemory, a.Bulk)
 		if err != nil {
 			return "build-error " + err.Error()
 		}
@@ -323,7 +382,36 @@ func goAuthSeq(a AuthCase) (res string) {
 		return "authorizer-error " + err.Error()
 	}
 	var outs []string
+	var pending biscuit.ParsedAuthorizer
+	havePending := false
+	flush := func() {
+		if havePending {
+			az.AddAuthorizer(pending)
+			pending, havePending = biscuit.ParsedAuthorizer{}, false
+		}
+	}
 	for _, op := range a.Ops {
+		if a.Bulk {
+			switch op.K {
+			case "addfact":
+				pending.Block.Facts = append(pending.Block.Facts, biscuit.Fact{Predicate: op.Fact.ToBiscuit()})
+				havePending = true
+				continue
+			case "addrule":
+				pending.Block.Rules = append(pending.Block.Rules, op.Rule.ToBiscuit())
+				havePending = true
+				continue
+			case "addcheck":
+				pending.Block.Checks = append(pending.Block.Checks, op.Check.ToBiscuit())
+				havePending = true
+				continue
+			case "addpolicy":
+				pending.Policies = append(pending.Policies, op.Policy.ToBiscuit())
+				havePending = true
+				continue
+			}
+			flush()
+		}
 		switch op.K {
 		case "addfact":
 			az.AddFact(biscuit.Fact{Predicate: op.Fact.ToBiscuit()})
@@ -702,7 +790,13 @@ func (g *scenGen) token(nblocks int) []Block {
 	r := g.r
 	t := []Block{g.block(r.Intn(6), r.Intn(3), r.Intn(3))}
 	for i := 0; i < nblocks; i++ {
-		t = append(t, g.block(r.Intn(4), r.Intn(3), r.Intn(3)))
+		b := g.block(r.Intn(4), r.Intn(3), r.Intn(3))
+		// along an attenuation chain the same check is often carried by several blocks: each
+		// copy is evaluated in its own block's scope (it may hold in one and fail in the other)
+		if prev := t[len(t)-1]; len(prev.Checks) > 0 && r.Chance(1, 3) {
+			b.Checks = append(b.Checks, Pick(r, prev.Checks))
+		}
+		t = append(t, b)
 	}
 	return t
 }
